@@ -206,6 +206,7 @@ func genBundle(r *R, opts FlatOpts, plus bool, thorough bool, force map[string]b
 	}
 	if plus {
 		flag("plusDangling", 25)
+		flag("plusDanglingPart", 15)
 		flag("plusMissingFile", 20)
 		flag("plusDeepPtr", 35)
 		flag("plusPtrInPtr", 25)
